@@ -220,7 +220,8 @@ class BaseServer:
     def _upgrades(self, sid, transport):
         """Return the list of possible upgrades for a client connection."""
         if not self.allow_upgrades or self._get_socket(sid).upgraded or \
-                transport == 'websocket':
+                transport == 'websocket' or \
+                'websocket' not in self.transports:
             return []
         if self._async['websocket'] is None:  # pragma: no cover
             self._log_error_once(
